@@ -8,7 +8,7 @@ ONLY = 'processMessageLoop,getOrCreateDeviceCache,processDeviceMessagesInQueue,P
 def prepare(wd):
     out = os.path.join(wd, 'inj_store_message.go')
     rc, log = vlib.sh([os.path.join(vlib.VERIF, 'bin', 'inject'), '-in', os.path.join(vlib.REPO, 'store_message.go'), '-out', out,
-                       '-only', ONLY, '-calls', CALLS])
+                       '-only', ONLY, '-calls', CALLS, '-fields', 'hasKnownChainKey'])
     if rc != 0:
         raise RuntimeError('inject failed: ' + log)
     return {'store_message.go': out,
